@@ -323,7 +323,7 @@ func (e *Engine) scanGlobals() {
 			}
 		}
 	}
-	for _, sp := range e.spkgs {
+	for _, sp := range e.prog.AllPackages() {
 		if sp == nil {
 			continue
 		}
@@ -398,7 +398,8 @@ func (e *Engine) globalConst(fx *FuncCtx, g *ssa.Global) *Val {
 	switch t.Underlying().(type) {
 	case *types.Interface:
 		if gi.external {
-			fx.u.axioms = append(fx.u.axioms, "(assert (not (= (if_tag "+name+") 0)))")
+			// each external interface-typed variable holds a value of a type no repository code names
+			fx.u.axioms = append(fx.u.axioms, fmt.Sprintf("(assert (= (if_tag %s) %d))", name, fx.u.tagOfKey("extglobal:"+name)))
 			fx.u.extIfaces = append(fx.u.extIfaces, name)
 		}
 	case *types.Pointer:
